@@ -537,7 +537,7 @@ def run(tier, seed, replay=None):
         cases = [d["replay"]["case"]] if "case" in d.get("replay", {}) else []
     else:
         cases = vf.load_corpus(PROP)
-        n = 8 if tier == "quick" else 40
+        n = 8 if tier == "quick" else 28
         cases += [gen_case(r.rng, tier, i) for i in range(n)]
     cases = [f"id={i} {c}" + (" tier=thorough" if tier == "thorough" else "") for i, c in enumerate(cases)]
     try:
